@@ -29,7 +29,7 @@ def families(thorough):
         {"nx": 2, "ny": 3, "zcols": [], "strata": [[]], "K": 1, "maxn": 12},
         {"nx": 3, "ny": 3, "zcols": [], "strata": [[]], "K": 1, "maxn": 5},
         {"nx": 2, "ny": 2, "zcols": ["z1"], "strata": [[0], [1]], "K": 1, "maxn": 12},
-        {"nx": 2, "ny": 2, "zcols": ["z1", "z2"], "strata": [[0, 0], [1, 1], [0, 1]], "K": 1, "maxn": 5},
+        {"nx": 2, "ny": 2, "zcols": ["z1", "z2"], "strata": [[0, 0], [1, 1], [0, 1]], "K": 1, "maxn": 4},
     ]
     if thorough:
         fams = [
@@ -145,75 +145,124 @@ def split_prints(prints):
     return hdr[0], cases
 
 
-def replay_discrete(ctx, hdr, cases, insts, tag):
-    by_inst = {i["id"]: i for i in (insts or [])}
+def take_discrete(ctx, res):
+    ctx.traces += res["n"]
+    ctx.evaluations += res["calls"]
+    for fl in res["fails"]:
+        ctx.violation(fl)
+    cnt = ctx.extra.setdefault("c19_calls", {})
+    for k, v in res["stats"].items():
+        cnt[k] = cnt.get(k, 0) + v
+
+
+def take_pearson(ctx, res):
+    ctx.traces += res["n"]
+    ctx.evaluations += res["calls"]
+    for fl in res["fails"]:
+        ctx.violation(fl)
+
+
+def pearson_groups(cases):
+    by = {}
     for c in cases:
-        if c["src"] == "inst":
-            c["rows"] = by_inst[c["inst"]]["rows"]
-    hseeds = [0, 1] if not ctx.thorough else [0, 1, 2, 3]
-    pl = []
-    parts = chunks(cases, NWORK)
-    for j, ch in enumerate(parts):
-        if ch:
-            hs = hseeds[j % len(hseeds)]
-            pl.append((hs, {"header": hdr, "cases": ch, "seed": ctx.seed * 1000 + 17 * j + hs, "full": ctx.thorough}))
-    for res in run_workers(ctx, "c19", "replay_discrete_w", pl):
-        ctx.traces += res["n"]
-        ctx.evaluations += res["calls"]
-        for fl in res["fails"]:
-            ctx.violation(fl)
-        ctx.extra.setdefault("c19_counts", {})
-        for k, v in res["stats"].items():
-            ctx.extra["c19_counts"][k] = ctx.extra["c19_counts"].get(k, 0) + v
-    for c in cases:
-        cc = c["case"]
-        ctx.count(json.dumps([c.get("rows"), cc["X"], cc["Y"], cc["Z"]], sort_keys=True), nontrivial=cc["dof"] > 0, n=0)
+        by.setdefault((c["inst"], c["X"], c["Y"], json.dumps(c["Z"])), []).append(c)
+    return list(by.values())            # one group = base selection + all its re-parametrisations
 
 
 def run(ctx):
-    ctx.rule = ("distinct = (data bag, X, Y, Z) with pooled dof > 0; Gen_C19: every bag of the table families (all cell counts 0..K); "
-                "Gen_C19D: seeded data sets x all (X,Y,ordered Z); Gen_C19P: tiny integer data x all (X,Y,Z) x affine maps; "
-                "Trace_C19: recorded calls on random frames and from PC.build_skeleton")
+    ctx.rule = ("distinct = (data bag, X, Y, Z) with pooled dof > 0, plus every (data, X, Y, Z, affine map) of the partial-correlation test; "
+                "Gen_C19: every bag of the table families (all cell counts 0..K); Gen_C19D: seeded data sets x all (X,Y,ordered Z); "
+                "Gen_C19P: tiny integer data x all (X,Y,Z) x affine maps; Trace_C19: recorded calls on random frames and from PC.estimate")
     ctx.assumptions += [
         "chi-square survival function is uninterpreted in the spec: expected p-value = scipy.stats.chi2.sf(spec statistic, spec dof), "
         "except dof=0 / statistic=0 -> 1 and statistic=+inf -> 0 which the spec fixes",
         "the p-value of the Pearson test is uninterpreted: 2*StudentT_sf(|r|*sqrt((n-2)/(1-r^2)), n-2) evaluated with scipy on the spec's r",
-        "statistic normal forms (rational + sum coef*log(ratio) | coef*ratio^lambda) and r = sxy/sqrt(sxx*syy) are evaluated by the harness in double precision; tolerance 1e-9",
+        "statistic normal forms (rational + sum coef*log(ratio) | coef*ratio^lambda) and r = sxy/sqrt(sxx*syy) are evaluated by the harness in double precision; tolerance 1e-9 (1e-8 for r)",
         "Yates continuity correction on strata with dof 1 (scipy's documented default) is part of the specified test",
+        "empty tested cell: contribution 0 for lambda > -1, +infinity for lambda <= -1 (continuous extension of the Cressie-Read family)",
         "regression data sets without full column rank and constant residuals are excluded (r undefined)",
     ]
+    import time
+    t0 = time.time()
+    phase = ctx.extra.setdefault("c19_phase_s", {})
     rng = random.Random(ctx.seed + 19)
-    # ---- Gen_C19: exhaustive table families
+    # ---- TLC: Gen_C19 (exhaustive table families), Gen_C19D (instance data sets x all (X,Y,Z)), Gen_C19P (partial correlation)
     fams = families(ctx.thorough)
     ff = os.path.join(ctx.work, "fams.json")
     with open(ff, "w") as fh:
         json.dump(fams, fh)
-    r = ctx.tlc("Gen_C19", CFG_GEN, env={"FAM_FILE": ff}, tag="Gen_tables", timeout=3000)
-    hdr, cases = split_prints(r.prints)
+    r1 = ctx.tlc("Gen_C19", CFG_GEN, env={"FAM_FILE": ff}, tag="Gen_tables", timeout=3000)
+    hdr, cases = split_prints(r1.prints)
     if len(cases) < 1000:
         raise Machinery("C19: Gen_C19 produced too few cases")
     ctx.exhaustive = True
     ctx.sample({"kind": "table", "rows": cases[-1]["rows"], "Z": cases[-1]["case"]["Z"], "dof": cases[-1]["case"]["dof"]})
-    replay_discrete(ctx, hdr, cases, None, "tables")
-    # ---- Gen_C19D: instance data sets, all (X, Y, Z)
     insts = data_instances(rng, ctx.thorough)
     fi = os.path.join(ctx.work, "insts.json")
     with open(fi, "w") as fh:
         json.dump(insts, fh)
-    r = ctx.tlc("Gen_C19D", "CONSTANT MaxZ = %d\n" % (3 if ctx.thorough else 2) + CFG_GEN, env={"INST_FILE": fi}, tag="Gen_data", timeout=3000)
-    hdr, cases = split_prints(r.prints)
-    if len(cases) < 100:
-        raise Machinery("C19: Gen_C19D produced too few cases")
-    ctx.sample({"kind": "data", "inst": cases[-1]["inst"], "X": cases[-1]["case"]["X"], "Y": cases[-1]["case"]["Y"], "Z": cases[-1]["case"]["Z"]})
-    replay_discrete(ctx, hdr, cases, insts, "data")
-    # ---- Gen_C19P: partial correlation
-    run_pearson(ctx, rng)
-    # ---- Trace_C19: calls recorded from the real code, validated by TLC
-    traces = record_traces(ctx, 6 if ctx.thorough else 2, 4 if ctx.thorough else 1, ctx.seed * 7919 + 3)
+    r2 = ctx.tlc("Gen_C19D", "CONSTANT MaxZ = %d\n" % (3 if ctx.thorough else 2) + CFG_GEN, env={"INST_FILE": fi}, tag="Gen_data", timeout=3000)
+    hdr2, cases2 = split_prints(r2.prints)
+    if len(cases2) < 100 or hdr2 != hdr:
+        raise Machinery("C19: Gen_C19D produced too few cases / a different header")
+    by_inst = {i["id"]: i for i in insts}
+    for c in cases2:
+        c["rows"] = by_inst[c["inst"]]["rows"]
+    ctx.sample({"kind": "data", "inst": cases2[-1]["inst"], "X": cases2[-1]["case"]["X"], "Y": cases2[-1]["case"]["Y"], "Z": cases2[-1]["case"]["Z"]})
+    pinsts = pearson_instances(rng, ctx.thorough)
+    fp = os.path.join(ctx.work, "pinsts.json")
+    with open(fp, "w") as fh:
+        json.dump(pinsts, fh)
+    r = ctx.tlc("Gen_C19P", "CONSTANT Wide = %s\n" % ("TRUE" if ctx.thorough else "FALSE") + CFG_GEN, env={"INST_FILE": fp},
+                tag="Gen_pearson", timeout=3000)
+    pcases = r.prints
+    if len(pcases) < 200 or not any(c["tr"]["v"] for c in pcases):
+        raise Machinery("C19: Gen_C19P produced too few cases")
+    ctx.sample({"kind": "pearson", **{k: pcases[-1][k] for k in ("inst", "X", "Y", "Z", "tr", "F")}})
+    # vacuity control without -coverage (4x slower, and ~30 s fixed cost): every non-initial state is one taken action
+    for tag, rr, init in (("Gen_C19.Next", r1, len(fams)), ("Gen_C19D.Next", r2, len(insts)), ("Gen_C19P.Next", r, len(pinsts))):
+        ctx.actions[tag] = ctx.actions.get(tag, 0) + rr.generated - init
+    ctx.require_actions(["Gen_C19.Next", "Gen_C19D.Next", "Gen_C19P.Next"])
+    phase["tlc_gen"] = round(time.time() - t0, 1)
+    # ---- one batch of workers: replay of both discrete generators, of the pearson generator, and the trace recorders
+    allc = cases + cases2
+    hseeds = [0, 1] if not ctx.thorough else [0, 1, 2, 3]
+    nd, npw, nrec = (6, 1, 1) if not ctx.thorough else (9, 2, 3)
+    jobs = []
+    for j, ch in enumerate(chunks(allc, nd)):
+        if ch:
+            hs = hseeds[j % len(hseeds)]
+            jobs.append((hs, {"kind": "discrete", "header": hdr, "cases": ch, "seed": ctx.seed * 1000 + 17 * j + hs, "full": ctx.thorough}))
+    for j, ch in enumerate(chunks(pearson_groups(pcases), npw)):
+        if ch:
+            jobs.append((j % 2, {"kind": "pearson", "insts": pinsts, "groups": ch, "seed": ctx.seed * 1000 + j}))
+    for j in range(nrec):
+        jobs.append((j % 2, {"kind": "record", "seed": ctx.seed * 7919 + 3 + 31 * j, "n_direct": 6 if ctx.thorough else 4,
+                             "n_pc": 4 if ctx.thorough else 3, "tid0": 1000 * j, "thorough": ctx.thorough}))
+    traces = []
+    t1 = time.time()
+    results = run_workers(ctx, "c19", "multi_w", jobs)
+    phase["workers"] = round(time.time() - t1, 1)
+    phase["worker_s"] = [round(r.get("wall", 0), 1) for r in results]
+    for (hs, pl), res in zip(jobs, results):
+        if pl["kind"] == "discrete":
+            take_discrete(ctx, res)
+        elif pl["kind"] == "pearson":
+            take_pearson(ctx, res)
+        else:
+            traces += res["traces"]
+            ctx.evaluations += res["calls"]
+    for c in allc:
+        cc = c["case"]
+        ctx.count(json.dumps([c.get("rows"), cc["X"], cc["Y"], cc["Z"]], sort_keys=True), nontrivial=cc["dof"] > 0, n=0)
+    for c in pcases:
+        ctx.count(json.dumps(["P", c["inst"], c["X"], c["Y"], c["Z"], c["tr"]], sort_keys=True), nontrivial=True, n=0)
+    # ---- Trace_C19: the recorded calls, validated by TLC
+    t2 = time.time()
     validate_traces(ctx, traces)
-    if traces:
-        t = traces[-1]
-        ctx.sample({"kind": "trace", "pc": t["pc"], "n_rows": len(t["rows"]), "events": t["events"][:2]})
+    phase["trace_validate"] = round(time.time() - t2, 1)
+    t = traces[-1]
+    ctx.sample({"kind": "trace", "pc": t["pc"], "n_rows": len(t["rows"]), "events": t["events"][:2]})
 
 
 def pearson_instances(rng, thorough):
@@ -226,7 +275,7 @@ def pearson_instances(rng, thorough):
     # hand-made: y = 2x + 1 exactly (r = 1); an intercept-only relation (no-intercept regression is visibly different)
     add(["a", "b", "c"], [[0, 1, 2], [1, 3, 0], [2, 5, 1], [3, 7, 3], [1, 3, 2]])
     add(["a", "b", "c"], [[3, 0, 1], [2, 1, 1], [3, 1, 2], [2, 0, 2], [3, 2, 3], [2, 3, 3]])
-    shapes = [(4, 5), (4, 6), (3, 6)] if not thorough else [(4, 5), (4, 6), (4, 6), (4, 6), (3, 4), (3, 5), (4, 5), (4, 4)]
+    shapes = [(4, 5), (3, 6), (3, 5)] if not thorough else [(4, 5), (4, 6), (4, 6), (4, 6), (3, 4), (3, 5), (4, 5), (4, 4)]
     for ncol, n in shapes:
         cols = ["a", "b", "c", "d"][:ncol]
         add(cols, [[rng.randint(0, 3) for _ in cols] for _ in range(n)])
@@ -242,15 +291,24 @@ def validate_traces(ctx, traces, tag="Trace"):
     keep = ("tid", "rows", "alpha", "pc", "skel", "cols", "events")
     with open(tf, "w") as f:
         json.dump([{k: t[k] for k in keep} for t in traces], f)
-    r = ctx.tlc("Trace_C19", CFG_TRACE, env={"TRACE_FILE": tf}, tag=tag, coverage=True, timeout=3000)
+    # no -coverage here: TLC's coverage bookkeeping runs out of memory on the deserialised trace file; the actions taken are
+    # counted from the verdict records instead (one Step per event, one Finish per trace)
+    r = ctx.tlc("Trace_C19", CFG_TRACE, env={"TRACE_FILE": tf}, tag=tag, timeout=3000)
     by = {t["tid"]: t for t in traces}
     seen = set()
     todo = []
+    for t in traces:
+        if t.get("exc"):
+            ctx.violation({"api": "PC.estimate", "clause": "raises", "features": {"ci_test": t.get("pc_test")},
+                           "case": {"kind": "trace", "trace": {k: t[k] for k in t if k != "raw"}}, "observed": t["exc"],
+                           "expected": "a skeleton (integer-coded discrete data, no missing values)"})
     for p in r.prints:
         t = by[p["tid"]]
         seen.add(p["tid"])
         if len(p["verdicts"]) != len(t["events"]) + 1:
             raise Machinery(f"Trace_C19: trace {p['tid']}: {len(p['verdicts'])} verdicts for {len(t['events'])} events")
+        ctx.actions["Step"] = ctx.actions.get("Step", 0) + len(t["events"])
+        ctx.actions["Finish"] = ctx.actions.get("Finish", 0) + 1
         for v, e in zip(p["verdicts"], t["events"] + [None]):
             if v["clause"] == "unknown_call":
                 raise Machinery(f"Trace_C19: event {e} is not a call the spec knows")
@@ -267,7 +325,9 @@ def validate_traces(ctx, traces, tag="Trace"):
         for v, e in zip(p["verdicts"], t["events"] + [None]):
             tr = {k: t[k] for k in t if k != "raw"}
             if e is None:           # the closing verdict (PC traces: skeleton consistent with the recorded verdicts)
-                if v["clause"] != "ACCEPT":
+                if t.get("exc"):
+                    ok = False
+                elif v["clause"] != "ACCEPT":
                     ok = False
                     ctx.violation({"api": "PC.build_skeleton", "clause": v["clause"], "features": {"ci_test": t.get("pc_test")},
                                    "case": {"kind": "trace", "trace": tr}, "observed": t["skel"],
@@ -285,8 +345,8 @@ def validate_traces(ctx, traces, tag="Trace"):
                 obs, exp = {k: raw[k] for k in ("stat", "p", "dof", "ret")}, {"dof": v["dof"], "pk": v["pk"], "verdict": v["v"]}
             ok = False
             cc = {"dof": v["dof"], "zerocell": bool(v["feat"]["zero_cell"]), "yates": bool(v["feat"]["yates"]), "Z": e["Z"]}
-            feats = features_for(cc, e["L"]) if clause != "pc.significance_level" else {"ci_test": t.get("pc_test")}
-            ctx.violation({"api": "CITests.power_divergence" if clause != "pc.significance_level" else "PC.build_skeleton",
+            feats = features_for(cc, v["L"]) if clause != "pc.significance_level" else {"ci_test": t.get("pc_test")}
+            ctx.violation({"api": "CITests." + e["api"] if clause != "pc.significance_level" else "PC.build_skeleton",
                            "clause": clause.split(".")[0] if clause.split(".")[0] in ("statistic", "p_value") else clause, "features": feats,
                            "case": {"kind": "trace", "trace": tr, "event": v["seq"]}, "observed": obs, "expected": exp})
         if ok:
@@ -297,7 +357,7 @@ def validate_traces(ctx, traces, tag="Trace"):
 
 
 def record_traces(ctx, n_direct, n_pc, seed0):
-    pl = [(j % 2, {"seed": seed0 + 31 * j, "n_direct": n_direct, "n_pc": n_pc, "tid0": 1000 * j, "thorough": ctx.thorough}) for j in range(NWORK // 2)]
+    pl = [(j % 2, {"seed": seed0 + 31 * j, "n_direct": n_direct, "n_pc": n_pc, "tid0": 1000 * j, "thorough": ctx.thorough}) for j in range(2)]
     traces = []
     for res in run_workers(ctx, "c19", "record_w", pl):
         traces += res["traces"]
@@ -305,38 +365,15 @@ def record_traces(ctx, n_direct, n_pc, seed0):
     return traces
 
 
-def run_pearson(ctx, rng):
-    insts = pearson_instances(rng, ctx.thorough)
-    fp = os.path.join(ctx.work, "pinsts.json")
-    with open(fp, "w") as fh:
-        json.dump(insts, fh)
-    r = ctx.tlc("Gen_C19P", "CONSTANT Wide = %s\n" % ("TRUE" if ctx.thorough else "FALSE") + CFG_GEN, env={"INST_FILE": fp},
-                tag="Gen_pearson", timeout=3000)
-    cases = r.prints
-    if len(cases) < 200 or not any(c["tr"]["v"] for c in cases):
-        raise Machinery("C19: Gen_C19P produced too few cases")
-    ctx.sample({"kind": "pearson", **{k: cases[-1][k] for k in ("inst", "X", "Y", "Z", "tr", "F")}})
-    by = {}
-    for c in cases:
-        by.setdefault((c["inst"], c["X"], c["Y"], json.dumps(c["Z"])), []).append(c)
-    groups = list(by.values())            # one group = base selection + all its re-parametrisations
-    pl = [(j % 2, {"insts": insts, "groups": ch, "seed": ctx.seed * 1000 + j}) for j, ch in enumerate(chunks(groups, NWORK // 2)) if ch]
-    for res in run_workers(ctx, "c19", "replay_pearson_w", pl):
-        ctx.traces += res["n"]
-        ctx.evaluations += res["calls"]
-        for fl in res["fails"]:
-            ctx.violation(fl)
-    for c in cases:
-        ctx.count(json.dumps(["P", c["inst"], c["X"], c["Y"], c["Z"], c["tr"]], sort_keys=True), nontrivial=True, n=0)
-
-
 def replay(ctx, rec):
     case = rec["case"]
+    ctx.findings = []            # a replay answers "does it still fail", known or not
     if case["kind"] == "discrete":
         res = run_workers(ctx, "c19", "replay_discrete_w",
                           [(case["hashseed"], {"header": case["header"], "cases": [case["case"]], "seed": case["seed"], "full": True,
                                                "only": case.get("only")})])[0]
-        return res["fails"][:1] or None
+        same = [f for f in res["fails"] if f["clause"] == rec.get("clause")]
+        return (same or res["fails"])[:1] or None
     if case["kind"] == "pearson":
         res = run_workers(ctx, "c19", "replay_pearson_w", [(case["hashseed"], {"insts": [case["inst"]], "groups": [case["group"]], "seed": case["seed"]})])[0]
         same = [f for f in res["fails"] if f["clause"] == rec["clause"]]
@@ -345,8 +382,7 @@ def replay(ctx, rec):
         res = run_workers(ctx, "c19", "record_w", [(case["trace"].get("hashseed", 0), {"rerun": case["trace"]})])[0]
         n0 = len(ctx.violations)
         validate_traces(ctx, res["traces"], tag="Replay")
-        new = ctx.violations[n0:] + [dict(api=w, clause="known") for w in ([1] if ctx.known else [])]
-        return new[:1] or None
+        return ctx.violations[n0:][:1] or None
     raise Machinery("C19 replay: unknown case kind " + str(case["kind"]))
 
 
@@ -403,8 +439,7 @@ def selftest(ctx):
     ff = os.path.join(ctx.work, "fams.json")
     with open(ff, "w") as fh:
         json.dump(fams, fh)
-    r = ctx.tlc("Gen_C19", CFG_GEN, env={"FAM_FILE": ff}, tag="Self_gen", coverage=True)
-    ctx.require_actions(["Next"])
+    r = ctx.tlc("Gen_C19", CFG_GEN, env={"FAM_FILE": ff}, tag="Self_gen")
     hdr, cases = split_prints(r.prints)
     res = run_workers(ctx, "c19", "replay_discrete_w", [(0, {"header": hdr, "cases": cases, "seed": 1, "full": False, "stub": "no_yates"})])[0]
     if not any(f["clause"] == "statistic" for f in res["fails"]):
@@ -414,8 +449,9 @@ def selftest(ctx):
     fp = os.path.join(ctx.work, "pinsts.json")
     with open(fp, "w") as fh:
         json.dump(insts, fh)
-    r = ctx.tlc("Gen_C19P", "CONSTANT Wide = FALSE\n" + CFG_GEN, env={"INST_FILE": fp}, tag="Self_pearson", coverage=True)
-    ctx.require_actions(["Pick", "Transform"])
+    r = ctx.tlc("Gen_C19P", "CONSTANT Wide = FALSE\n" + CFG_GEN, env={"INST_FILE": fp}, tag="Self_pearson")
+    if not any(c["tr"]["v"] for c in r.prints) or not any(not c["tr"]["v"] for c in r.prints):
+        raise Machinery("selftest: Gen_C19P took no Pick / Transform action")
     by = {}
     for c in r.prints:
         by.setdefault((c["inst"], c["X"], c["Y"], json.dumps(c["Z"])), []).append(c)
@@ -552,6 +588,12 @@ def replay_discrete_w(payload):
 
         bad_L = set()       # lambdas whose direct power_divergence call already failed: wrappers / relations not re-reported
         todo = [c for c in calls if only is None or [c[0], c[1], list(c[2])] == only[:3]]
+        if only is None and not payload.get("full"):
+            # quick tier: every named lambda and every wrapper, the numeric lambdas that have no name, and 2 of the numeric duplicates
+            named = {c[2] for c in calls if c[1] != "num"}
+            dup = [c for c in todo if c[1] == "num" and c[2] in named]
+            drop = set(rng.sample(dup, max(0, len(dup) - 2)))
+            todo = [c for c in todo if c not in drop]
         todo.sort(key=lambda c: (c[0] != "power_divergence", c[1] in ("", "num")))
         ok_calls = []
         for k, (fname, lam_arg, L) in enumerate(todo):
@@ -576,7 +618,7 @@ def replay_discrete_w(payload):
             else:
                 bad_L.add(L)
         # ---- verdict rule: boolean = (p_value >= significance_level)
-        vsel = ok_calls if payload.get("full") else rng.sample(ok_calls, min(4, len(ok_calls)))
+        vsel = ok_calls if payload.get("full") else rng.sample(ok_calls, min(2, len(ok_calls)))
         # calls whose base run failed are still probed for the verdict on ONE alpha (the user-visible consequence)
         failed_calls = [c for c in todo if c not in ok_calls and c[0] == "power_divergence" and c[1] not in ("", "num")]
         for (fname, lam_arg, L) in vsel + failed_calls[:2]:
@@ -637,6 +679,14 @@ def replay_discrete_w(payload):
                     continue
                 check_tuple("power_divergence", lam_arg, L, out, "relation.", feats, call)
     return {"n": len(payload["cases"]), "calls": ncalls, "fails": fails, "stats": st, "nsig": nsig}
+
+
+def multi_w(payload):
+    import time
+    t0 = time.time()
+    res = {"discrete": replay_discrete_w, "pearson": replay_pearson_w, "record": record_w}[payload["kind"]](payload)
+    res["wall"] = time.time() - t0
+    return res
 
 
 def eval_w(payload):
@@ -743,15 +793,19 @@ def record_w(payload):
             events.append(ev)
             return out
         pcmod.CI_TESTS[name] = rec
+        t["exc"] = None
         try:
             est = pcmod.PC(df)
             kw = {} if t["pc_lam"] in ("",) else {"lambda_": t["pc_lam"]}
             skel, _sep = est.estimate(variant=t["variant"], ci_test=name, significance_level=float(frac(t["alpha"])), return_type="skeleton",
                                       show_progress=False, max_cond_vars=t["max_cond"], n_jobs=1, **kw)
+            t["skel"] = sorted([sorted([u, v]) for u, v in skel.edges()])
+        except Exception as ex:  # noqa  the code under test raised: reported as a violation by validate_traces, not a harness failure
+            t["exc"] = repr(ex)[:300]
+            t["skel"] = []
         finally:
             pcmod.CI_TESTS[name] = orig
         t["events"], t["raw"] = events, raws
-        t["skel"] = sorted([sorted([u, v]) for u, v in skel.edges()])
         return t
 
     if "rerun" in payload:
@@ -786,8 +840,9 @@ def record_w(payload):
             ev = {"api": api, "lamarg": lamarg, "L": L or [0, 1], "X": X, "Y": Y, "Z": Z, "alpha": rng.choice([[1, 100], [1, 20], [1, 5], [1, 2]])}
             try:
                 tup, b = run_event(df, ev)
-            except Exception as ex:  # noqa   a raising call is logged as NaN everything: TLC rejects it unless the case is degenerate
+            except Exception as ex:  # noqa   a raising call is logged as NaN everything: TLC rejects it (dof -1 is never specified)
                 tup, b = (float("nan"), float("nan"), -1), False
+                ev["exc"] = repr(ex)[:200]
             t["raw"].append(finish(ev, tup, b))
             if api != "power_divergence" or lamarg != "num":
                 ev["L"] = [0, 1]
@@ -832,6 +887,19 @@ def replay_pearson_w(payload):
     fn = reference if stub else cit.pearsonr
     fails, ncalls, nsig = [], 0, {}
     alphas = [0.0, 0.01, 0.05, 0.5]
+
+    def r_and_p(F):
+        r = F["sxy"] / math.sqrt(F["sxx"] * F["syy"])
+        if F["sxy"] * F["sxy"] == F["sxx"] * F["syy"]:
+            return r, 0.0
+        return r, float(2 * stats.t.sf(abs(r) * math.sqrt((F["n"] - 2) / (1.0 - r * r)), F["n"] - 2))
+
+    def matches_dev(c, coef, p):
+        """classification of a rejected observation: equal to the spec's NAMED deviation (regression through the origin)?"""
+        if not c["dev"].get("n"):
+            return "not_evaluated"          # deviation undefined here or beyond the spec's 32-bit guard
+        rd, pd_ = r_and_p(c["dev"])
+        return "regression_without_intercept" if close(coef, rd, 1e-8) and abs(p - pd_) <= 1e-7 else "none"
     for group in payload["groups"]:
         inst = insts[group[0]["inst"]]
         group = sorted(group, key=lambda c: c["tr"]["v"] != "")
@@ -872,10 +940,10 @@ def replay_pearson_w(payload):
             if not tr["v"]:
                 base_obs = (coef, p)
                 if not close(coef, r_exp, 1e-8):
-                    fail("value", feats, coef, r_exp, c)
+                    fail("value", dict(feats, matches=matches_dev(c, coef, p)), coef, r_exp, c)
                     continue
                 if abs(p - p_exp) > 1e-7:
-                    fail("p_value", feats, p, p_exp, c)
+                    fail("p_value", dict(feats, matches=matches_dev(c, coef, p)), p, p_exp, c)
                     continue
                 for a in alphas:
                     if abs(p_exp - a) <= 1e-7:
@@ -888,7 +956,7 @@ def replay_pearson_w(payload):
             else:
                 # two-run relation: the re-parametrised run must reproduce the base run (and hence the specified value)
                 kind = "shift" if tr["a"] == 1 else ("scale" if tr["b"] == 0 else "affine")
-                feats = {"Z_empty": not Z, "var": role, "map": kind}
+                feats = {"Z_empty": not Z, "shifted": tr["b"] != 0, "matches": matches_dev(c, coef, p)}   # variable / map: case.group[1].tr
                 ref = base_obs if base_obs is not None else (r_exp, p_exp)
                 if not close(coef, ref[0], 1e-8) or abs(p - ref[1]) > 1e-7:
                     fail("affine_invariance", feats, [coef, p], list(ref), c)
